@@ -24,6 +24,10 @@ P = json.loads(os.environ.get('XH_PARAMS', '{}') or '{}')
 NG = int(P.get('genomes', 3))
 NSLOT = int(P.get('slots', 4))
 ATTRS = ['key', 'genbank_acc', 'refseq_acc', 'ncbi_id']
+# world 0: every identifier attribute is unique and present.  world 1: the last genome has the same NCBI uid as the first one, in another NCBI
+# database (the schema's uniqueness is over (ncbi_db, ncbi_id)), so by ncbi_id one of them can never get a signature of its own.  world 2: one
+# genome has no RefSeq accession, so by refseq_acc it has no signature.
+WORLD = int(P.get('world', 0))
 
 
 def _build():
@@ -36,6 +40,10 @@ def _build():
     s.add(gset)
     for i in range(NG):
         g = Genome(key=f'k{i}', description=f'genome {i}', ncbi_db='assembly', ncbi_id=100 + i, genbank_acc=f'GCA_{i}', refseq_acc=f'GCF_{i}')
+        if WORLD == 1 and i == NG - 1:
+            g.ncbi_db, g.ncbi_id = 'nuccore', 100
+        if WORLD == 2 and i == 1:
+            g.refseq_acc = None
         s.add(AnnotatedGenome(genome=g, genome_set=gset, taxon=tax, organism='o'))
     # a genome outside the set (must never be paired)
     s.add(Genome(key='other', description='not in set', ncbi_db='assembly', ncbi_id=999, genbank_acc='GCA_x', refseq_acc='GCF_x'))
@@ -81,12 +89,15 @@ def _load_concrete(slots, attr_i):
     for x in slots:
         if x == NG + 2:
             continue
-        ids.append(IDVAL[a][x] if x < NG else EXTRA[a][x - NG])
+        v = IDVAL[a][x] if x < NG else EXTRA[a][x - NG]
+        ids.append('GCF_none' if v is None else v)        # the file cannot hold "no value"; whatever it holds cannot equal it
     if a == 'ncbi_id':
         ids = np.array(ids, dtype=np.int64) if ids else np.array([], dtype=np.int64)       # integer IDs come back from HDF5 as numpy integers
     sigs = FakeSigs(ids, attr)
     present = {x for x in slots if x < NG}
-    complete = len(present) == NG
+    if WORLD == 1 and a == 'ncbi_id' and {0, NG - 1} <= present:
+        return True, 'outside the property: the signature file would hold the same ID twice'
+    complete = len(present) == NG and not (WORLD == 1 and a == 'ncbi_id') and not (WORLD == 2 and a == 'refseq_acc')
     try:
         db = ReferenceDatabase(GSET, sigs)
     except (ValueError, TypeError, KeyError, RuntimeError) as e:
@@ -224,6 +235,10 @@ def _prepare_dirs():
         s.add(gset)
         for i in range(3):
             g = Genome(key=f'k{i}', description=f'genome {i}', ncbi_db='assembly', ncbi_id=100 + i, genbank_acc=f'GCA_{i}', refseq_acc=f'GCF_{i}')
+        if WORLD == 1 and i == NG - 1:
+            g.ncbi_db, g.ncbi_id = 'nuccore', 100
+        if WORLD == 2 and i == 1:
+            g.refseq_acc = None
             s.add(AnnotatedGenome(genome=g, genome_set=gset, taxon=tax, organism='o'))
         s.add(Genome(key='other', description='not in set', ncbi_db='assembly', ncbi_id=999, genbank_acc='GCA_x', refseq_acc='GCF_x'))
         s.commit()
